@@ -103,11 +103,60 @@ Proof.
   destruct (e =? E_CRITICAL); reflexivity.
 Qed.
 
+(* a pool request with a configured token *)
+Lemma kept_open_pool cfg export permit q auth :
+  req_auth q = Some auth -> In auth (c_tokens cfg) ->
+  exists resp,
+    handle_new cfg export permit (Ok q) =
+      (resp, if req_keep_alive q && permit then KeptOpen else Closed 0, req_keep_alive q)
+    /\ existsb is_keep_alive resp = req_keep_alive q && permit.
+Proof.
+  intros A T. destruct q as [als ps dn | a c2s s2c alg p ka | a wp wa ka]; cbn [req_auth] in A; inversion A; subst;
+    apply token_ok_in in T; cbn [handle_new req_keep_alive]; rewrite T; eexists; (split; [reflexivity|]).
+  - apply ke_response_keep_alive.
+  - apply supports_response_keep_alive.
+Qed.
+
+(* anything else: closed, the permit is not asked for, no keep-alive record *)
+Lemma closed_otherwise cfg export permit pr :
+  (forall q auth, pr = Ok q -> req_auth q = Some auth -> ~ In auth (c_tokens cfg)) ->
+  exists resp c, handle_new cfg export permit pr = (resp, Closed c, false)
+                 /\ existsb is_keep_alive resp = false.
+Proof.
+  intros N. destruct pr as [q|e|s].
+  - destruct q as [als ps dn | a c2s s2c alg p ka | a wp wa ka].
+    + cbn [handle_new]. destruct (find _ ps) as [p|]; [destruct (find _ als) as [al|]|].
+      * destruct (export p al) as [c2s s2c]. eexists; eexists; split; [reflexivity|apply ke_response_keep_alive].
+      * eexists; eexists; split; reflexivity.
+      * eexists; eexists; split; reflexivity.
+    + rewrite (token_required cfg export permit (FixedKey a c2s s2c alg p ka) a eq_refl
+                 (N (FixedKey a c2s s2c alg p ka) a eq_refl eq_refl)).
+      eexists; eexists; split; reflexivity.
+    + rewrite (token_required cfg export permit (Support a wp wa ka) a eq_refl
+                 (N (Support a wp wa ka) a eq_refl eq_refl)).
+      eexists; eexists; split; reflexivity.
+  - cbn [handle_new]. pose proof (on_parse_error_no_ka e) as K. destruct (on_parse_error e) as [resp code]. cbn [fst] in K.
+    eexists; eexists; split; [reflexivity|exact K].
+  - cbn [handle_new]. eexists; eexists; split; reflexivity.
+Qed.
+
+Lemma pool_classify cfg pr :
+  (exists q auth, pr = Ok q /\ req_auth q = Some auth /\ In auth (c_tokens cfg))
+  \/ (forall q auth, pr = Ok q -> req_auth q = Some auth -> ~ In auth (c_tokens cfg)).
+Proof.
+  destruct pr as [q|e|s]; try (right; intros; discriminate).
+  destruct (req_auth q) as [auth|] eqn:A; [|right; intros q' au E; inversion E; subst; congruence].
+  destruct (token_ok cfg auth) eqn:T.
+  - left. exists q, auth. apply token_ok_in in T. repeat split; assumption.
+  - right. intros q' au E A'. inversion E. subst. rewrite A in A'. inversion A'. subst.
+    intros H. apply token_ok_in in H. congruence.
+Qed.
+
 (* the connection is kept open exactly when a pool request carries a configured
    token, asks for it, and a permit is available; the permit is asked for
    exactly when token and wish are there; the keep-alive record says so *)
-Lemma kept_open_iff cfg export permit pr :
-  let '(resp, e, asked) := handle_new cfg export permit pr in
+Lemma kept_open_iff cfg export permit pr resp e asked :
+  handle_new cfg export permit pr = (resp, e, asked) ->
   (e = KeptOpen <->
      exists q auth, pr = Ok q /\ req_auth q = Some auth /\ In auth (c_tokens cfg)
                     /\ req_keep_alive q = true /\ permit = true)
@@ -116,37 +165,23 @@ Lemma kept_open_iff cfg export permit pr :
                     /\ req_keep_alive q = true)
   /\ (existsb is_keep_alive resp = true <-> e = KeptOpen).
 Proof.
-  destruct pr as [q|e|s]; cbn [handle_new].
-  - destruct q as [als ps dn | a c2s s2c alg p ka | a wp wa ka].
-    + destruct (find _ ps) as [p|]; [destruct (find _ als) as [al|]|];
-        try destruct (export p al) as [c2s s2c];
-        (split; [split; [discriminate|intros [q [au [E [A _]]]]; inversion E; subst; discriminate]|]);
-        (split; [split; [discriminate|intros [q [au [E [A _]]]]; inversion E; subst; discriminate]|]);
-        try (rewrite ke_response_keep_alive); split; discriminate.
-    + destruct (token_ok cfg a) eqn:T.
-      * apply token_ok_in in T. rewrite ke_response_keep_alive.
-        destruct ka, permit; cbn [andb]; (split; [|split]);
-          (split; [try discriminate; intros _; try reflexivity; eexists; eexists; repeat split; try reflexivity; exact T
-                  | try reflexivity; try (intros [q [au [E [A [I [K P]]]]]]; inversion E; subst; cbn in *; congruence);
-                    try (intros [q [au [E [A [I K]]]]]; inversion E; subst; cbn in *; congruence); try discriminate]).
-      * assert (N : ~ In a (c_tokens cfg)) by (intros H; apply token_ok_in in H; congruence).
-        (split; [|split]); (split; [discriminate|]);
-          try (intros [q [au [E [A [I _]]]]]; inversion E; subst; cbn in A; inversion A; subst; contradiction).
-        discriminate.
-    + destruct (token_ok cfg a) eqn:T.
-      * apply token_ok_in in T. rewrite supports_response_keep_alive.
-        destruct ka, permit; cbn [andb]; (split; [|split]);
-          (split; [try discriminate; intros _; try reflexivity; eexists; eexists; repeat split; try reflexivity; exact T
-                  | try reflexivity; try (intros [q [au [E [A [I [K P]]]]]]; inversion E; subst; cbn in *; congruence);
-                    try (intros [q [au [E [A [I K]]]]]; inversion E; subst; cbn in *; congruence); try discriminate]).
-      * assert (N : ~ In a (c_tokens cfg)) by (intros H; apply token_ok_in in H; congruence).
-        (split; [|split]); (split; [discriminate|]);
-          try (intros [q [au [E [A [I _]]]]]; inversion E; subst; cbn in A; inversion A; subst; contradiction).
-        discriminate.
-  - pose proof (on_parse_error_no_ka e) as K. destruct (on_parse_error e) as [resp code]. cbn [fst] in K.
-    (split; [|split]); (split; [discriminate|]);
-      try (intros [q [au [E _]]]; discriminate). rewrite K. discriminate.
-  - (split; [|split]); (split; [discriminate|]); try (intros [q [au [E _]]]; discriminate). discriminate.
+  intros H. destruct (pool_classify cfg pr) as [[q [auth [E [A T]]]]|N].
+  - subst pr. destruct (kept_open_pool cfg export permit q auth A T) as [resp' [H' K]].
+    rewrite H in H'. inversion H'. subst resp' e asked. clear H'.
+    split; [|split].
+    + split.
+      * intros Ek. exists q, auth. destruct (req_keep_alive q), permit; cbn in Ek; try discriminate. repeat split; assumption.
+      * intros [q' [au [E' [_ [_ [Kq P]]]]]]. inversion E'. subst q'. rewrite Kq, P. reflexivity.
+    + split.
+      * intros Ek. exists q, auth. repeat split; assumption.
+      * intros [q' [au [E' [_ [_ Kq]]]]]. inversion E'. subst q'. exact Kq.
+    + rewrite K. destruct (req_keep_alive q && permit); split; intros; try reflexivity; discriminate.
+  - destruct (closed_otherwise cfg export permit pr N) as [resp' [c [H' K]]].
+    rewrite H in H'. inversion H'. subst resp' e asked. clear H'.
+    split; [|split].
+    + split; [discriminate|]. intros [q [au [E [A [T _]]]]]. exfalso. apply (N q au E A T).
+    + split; [discriminate|]. intros [q [au [E [A [T _]]]]]. exfalso. apply (N q au E A T).
+    + rewrite K. split; discriminate.
 Qed.
 
 (* served (anything but the bad-request answer) only with a configured token *)
@@ -157,7 +192,7 @@ Lemma served_only_with_token cfg export permit q auth :
 Proof.
   intros A. destruct (token_ok cfg auth) eqn:T.
   - left. apply token_ok_in. exact T.
-  - right. apply token_required; [exact A|]. intros H. apply token_ok_in in H. congruence.
+  - right. apply (token_required cfg export permit q auth A). intros H. apply token_ok_in in H. congruence.
 Qed.
 
 (* a plain key-exchange request on a kept-open connection *)
@@ -324,9 +359,8 @@ Lemma wire_ke_response cfg p a c s :
 Proof.
   unfold wire, ke_response, ser_response, cookies_for.
   cbn [app realize concat p_protocol p_algorithm p_cookies p_server p_port p_keep_alive].
-  rewrite realize_cookies. rewrite concat_app, concat_map. f_equal. f_equal. f_equal.
-  - rewrite flat_map_concat_map. reflexivity.
-  - destruct (c_server cfg), (c_port cfg); cbn [opt_item keep_alive_item app realize concat]; rewrite ?app_nil_r; reflexivity.
+  rewrite realize_cookies, concat_app, <- flat_map_concat_map. do 3 f_equal.
+  destruct (c_server cfg), (c_port cfg); cbn [opt_item keep_alive_item app realize concat]; rewrite ?app_nil_r; reflexivity.
 Qed.
 
 (* A client with lists [protos]/[algs] against a server with configuration
